@@ -110,6 +110,10 @@ impl Iterator for FlopExhaustiveEvaluatorIterator {
             return None;
         }
 
+        if self.player_entries.iter().any(|entries| entries.is_empty()) {
+            return None;
+        }
+
         let turn = self.current_deck[self.current_turn_index as usize];
         let river = self.current_deck[self.current_river_index as usize];
 
